@@ -73,14 +73,24 @@ class SigmaCollection:
         """
         Apply filters on each rule and replace the rule with the filtered rule
         """
-        self.rules = [
-            reduce(
-                lambda r, f: f.apply_on_rule(r) if isinstance(r, SigmaRule) else r,
-                filters,
-                rule,
-            )
-            for rule in self.rules
-        ]
+        # A filter that fails on a rule must not keep the remaining filters and rules from being
+        # processed: the first error is raised after all other filters were applied.
+        errors: list[SigmaError] = []
+
+        def apply(
+            rule: SigmaRule | SigmaCorrelationRule, sigma_filter: SigmaFilter
+        ) -> SigmaRule | SigmaCorrelationRule:
+            if not isinstance(rule, SigmaRule):
+                return rule
+            try:
+                return sigma_filter.apply_on_rule(rule)
+            except SigmaError as e:
+                errors.append(e)
+                return rule
+
+        self.rules = [reduce(apply, filters, rule) for rule in self.rules]
+        if errors:
+            raise errors[0]
 
     def resolve_rule_references(self: Self) -> None:
         """
@@ -101,11 +111,12 @@ class SigmaCollection:
         self.rules = [rule for rule in self.rules if not isinstance(rule, SigmaFilter)]
 
         # Apply filters on each rule and replace the rule with the filtered rule
-        self.rules = (
-            [reduce(lambda r, f: f.apply_on_rule(r), filters, rule) for rule in self.rules]
-            if filters
-            else self.rules
-        )
+        filter_error: SigmaError | None = None
+        if filters:
+            try:
+                self.apply_filters(filters)
+            except SigmaError as e:  # raised below, after the rules were put into reference order
+                filter_error = e
 
         # Sort rules by reference order: each rule is preceded by all rules it references (directly
         # or indirectly), apart from that the order of the rules is kept.
@@ -124,6 +135,9 @@ class SigmaCollection:
         for rule in self.rules:
             add_rule(rule)
         self.rules = sorted_rules
+
+        if filter_error is not None:
+            raise filter_error
 
     @classmethod
     def from_dicts(
